@@ -161,6 +161,11 @@ func NewExec(cfg M) (*Exec, error) {
 		x.cb(ctx, M{"name": "closeconn"})
 		return nil
 	}))
+	if S(cfg, "cache") == "custom" {
+		opts = append(opts,
+			wire.Statements(func() wire.StatementCache { return &recStatements{x: x, inner: wire.DefaultStatementCacheFn()} }),
+			wire.Portals(func() wire.PortalCache { return &recPortals{x: x, inner: wire.DefaultPortalCacheFn()} }))
+	}
 	if I(cfg, "_ext") == 1 {
 		// a registered type extension: every connection still gets a type map of its own
 		opts = append(opts, wire.ExtendTypes(func(m *pgtype.Map) {
